@@ -36,8 +36,9 @@ Inductive rcase :=
      (printed : list str)                (* print_tree: the printed lines ([] on exception) *)
 | CH (t : tree) (start : pos) (max_depth : nat) (inter : bool) (st : hsel)
      (out : option (list str))           (* hyield_tree *)
-| CD (t : tree) (sep : str)
+| CD (t : tree) (sep : str) (opts : dotopts)
      (nodes : list (str * str)) (edges : list (str * str))   (* pydot: (name, label), (src, dst), creation order *)
+     (vattrs eattrs : list sdict)        (* pydot: attribute dictionary of every vertex / edge, same order *)
 | CM (t : tree) (lines : list str) (flows : list mflow_obs). (* mermaid: flow lines raw and parsed *)
 
 Definition vline_eqb (a b : vline) : bool :=
@@ -67,6 +68,15 @@ Definition mflows_consistent (flows : list mflow_obs) : bool :=
                        | None => true
                        end) flows.
 
+(* dictionaries are compared as sets of items (Python dict equality) *)
+Definition same_dict (a b : sdict) : bool :=
+  Nat.eqb (length a) (length b) && forallb (fun kv => existsb (pair_eqb kv) b) a
+  && forallb (fun kv => existsb (pair_eqb kv) a) b.
+
+(* a node with style dictionaries *)
+Definition Na (n : str) (a : attrs) (ks : list tree) : tree := T None n a ks.
+Definition no_opts : dotopts := DO None None None false false.
+
 Definition agree (c : rcase) : bool :=
   match c with
   | CV t start md sel out printed =>
@@ -81,7 +91,9 @@ Definition agree (c : rcase) : bool :=
       | Raise _, None => true
       | _, _ => false
       end
-  | CD t sep nodes edges => pairs_eqb (dot_nodes sep t) nodes && pairs_eqb (dot_edges sep t) edges
+  | CD t sep o nodes edges vattrs eattrs =>
+      pairs_eqb (dot_nodes sep t) nodes && pairs_eqb (dot_edges sep t) edges
+      && list_eqb same_dict (dot_vertex_attrs o t) vattrs && list_eqb same_dict (dot_edge_attrs o t) eattrs
   | CM t lines flows =>
       list_eqb str_eqb (mermaid_lines t) lines && list_eqb flow_eqb (map flow_of (mermaid_flows t)) flows
   end.
@@ -110,7 +122,7 @@ Definition prop_C18 (c : rcase) : bool :=
           end
       | _, _ => match out with None => true | Some _ => false end
       end
-  | CD t sep nodes edges => prop_C18_g t nodes edges
+  | CD t sep o nodes edges vattrs eattrs => prop_C18_g t nodes edges && prop_C18_attrs o t vattrs eattrs
   | CM t lines flows => mflows_consistent flows && prop_C18_g t (mverts flows) (medges flows)
   end.
 
